@@ -31,7 +31,65 @@ def _term(n, cls, o, A, B):
             return A if f.value.id == "self" else B
     if isinstance(n, ast.Attribute) and n.attr in REPS and isinstance(n.value, ast.Name) and n.value.id in ("self", o):
         return A if n.value.id == "self" else B
+    if isinstance(n, ast.BinOp) and isinstance(n.op, (ast.Mult, ast.MatMult)):
+        return _term(n.left, cls, o, A, B) * _term(n.right, cls, o, A, B)
+    if isinstance(n, ast.Name) and n.id == o and B is not None and not any(w for (_, w) in B.t):
+        return B  # the other operand is a scalar in this world
+    if isinstance(n, ast.Call) and isinstance(n.func, ast.Attribute) and n.func.attr == "type" and len(n.args) == 1 and unparse(n.func.value).split("(")[0].split(".")[-1] == "dtype":
+        return _term(n.args[0], cls, o, A, B)  # np.dtype("float32").type(s): the scalar s in another precision
     raise AnalysisError("%s: expression outside the term subset: %s" % (cls, unparse(n)[:60]))
+
+
+def subclass_products(ctx):
+    """dot / __mul__ / __rmul__ of the dense, sparse and diagonal operators for an operand of the same class and for a
+    scalar (every dtype branch): the representation of the result is the product, operands in order."""
+    r = ctx.rule("DUNDER-SUBCLASS-MUL", "dense / sparse / diagonal discrete operators: A * B, A.dot(B) (same class) build the operator of the product of the representations (A first); s * A, A * s, A.dot(s) the scaled one, "
+                 "in single and double precision and for real and complex scalars", 12)
+    from . import roles
+
+    m = ctx.repo.mod(DO)
+    A, Bop, s_ = NC.op("A"), NC.op("B"), NC.scalar("s")
+    n = 0
+    for cname, cnode in m.classes.items():
+        if cname.startswith("_"):
+            continue
+        meths = {st.name: st for st in cnode.body if isinstance(st, ast.FunctionDef)}
+        for mname in ("__mul__", "dot", "__rmul__", "__matmul__"):
+            st = meths.get(mname)
+            if st is None or len(arg_names(st)) < 2:
+                continue
+            o = arg_names(st)[1]
+            worlds = []
+            if mname != "__rmul__":
+                worlds.append(("operator of the same class", Bop, {"isinstance(%s, %s)" % (o, cname): True, "_np.isscalar(%s)" % o: False, "np.isscalar(%s)" % o: False}))
+            for dt in ("float32", "float64", "complex64", "complex128"):
+                for cx in (False, True):
+                    worlds.append(("scalar (%s operator, %s scalar)" % (dt, "complex" if cx else "real"), s_,
+                                   {"isinstance(%s, %s)" % (o, cname): False, "_np.isscalar(%s)" % o: True, "np.isscalar(%s)" % o: True, "_np.iscomplexobj(%s)" % o: cx, "np.iscomplexobj(%s)" % o: cx,
+                                    "self._impl.dtype": dt, "self.dtype": dt, "self.get_diagonal().dtype": dt, "self._values.dtype": dt}))
+            for wname, other, env in worlds:
+                try:
+                    kind, node = dispatch.select(st, env)
+                except AnalysisError:
+                    continue  # a test this world does not decide (e.g. another dtype attribute): not judged
+                if kind != "return" or node is None:
+                    continue
+                node = roles.inline(node, roles.Defs(st))
+                txt = unparse(node).replace(" ", "")
+                if txt.startswith("super()") or txt == "NotImplemented":
+                    continue  # delegated to the generic combinators (rules DUNDER-ALGEBRA / HOMOMORPHISM)
+                if txt in ("self.dot(%s)" % o, "self.__mul__(%s)" % o, "self.__matmul__(%s)" % o):
+                    continue  # forwarded to a sibling method judged on its own
+                want = A * other if other is Bop else s_ * A
+                try:
+                    got = _term(node, cname, o, A, other)
+                    ok, msg = got == want, "%s.%s for a %s builds %r, the expression denotes %r" % (cname, mname, wname, got, want)
+                except AnalysisError as e:
+                    ok, msg = False, str(e)
+                n += 1
+                r.check(ok, "%s.%s: %s" % (cname, mname, wname), DO, "%s.%s" % (cname, mname), st.lineno, "%s.%s %s" % (cname, mname, wname), msg)
+    if n < 12:
+        raise AnalysisError("only %d product branches of the discrete operator subclasses were judged" % n)
 
 
 def subclass_dunders(ctx):
